@@ -662,6 +662,9 @@ def _burst_strategy(tier: str = "quick"):
             "release_takes": release_takes,
             "ties": draw(st.lists(st.integers(0, 7), max_size=3)),
             "burst": burst,
+            # virtual seconds the tick-log write of the RELEASE tick takes (every other store call is instantaneous): the window between
+            # begin_release / TickIdleRelease and the exit of the old control loop, in which "just after the deadline" sends then land
+            "release_tick_write_takes": 0 if (many or release_takes) else draw(st.sampled_from([0, 0.25, 0.5])),
         }
         if FLAGS["resume_not_atomic"]:
             c["io_yields"] = draw(st.sampled_from([[], [1], [0, 2], [2, 0, 1], [1, 3], [3, 1, 0, 2]]))
@@ -677,7 +680,7 @@ def in_domain(case: dict) -> str | None:
     if not FLAGS["exact_deadline"] and any(g == "at" or (isinstance(g, (int, float)) and float(g) == I) for g in gaps):
         return "exact_deadline"
     reach = [g for g in gaps if g in ("at", "just_after", "after") or (isinstance(g, (int, float)) and float(g) >= I)]
-    if not FLAGS["multi_cycle"] and len(reach) > 1 and float(case.get("release_takes", 0) or 0) > 0:
+    if not FLAGS["multi_cycle"] and len(reach) > 1 and float(case.get("release_takes", 0) or 0) + float(case.get("release_tick_write_takes", 0) or 0) > 0:
         return "multi_cycle"
     if case.get("io_yields") and not FLAGS["resume_not_atomic"]:
         return "resume_not_atomic"
@@ -698,7 +701,7 @@ def _horizon(case: dict) -> float:
     tot = 0.0
     for g in case["gaps"]:
         tot += g if isinstance(g, (int, float)) else case["idle_timeout"] + 1.0
-    tot += sum(w * k for w, k in zip(case["work"], _layout(case)["size"])) * 2 + case["idle_timeout"] * (case["total"] + 2) + 2 * float(case.get("release_takes", 0) or 0)
+    tot += sum(w * k for w, k in zip(case["work"], _layout(case)["size"])) * 2 + case["idle_timeout"] * (case["total"] + 2) + 2 * (float(case.get("release_takes", 0) or 0) + float(case.get("release_tick_write_takes", 0) or 0))
     if case.get("wake"):
         tot += 3 * case["wake"]["delay"]
     return 60.0 + 10.0 * tot
@@ -758,7 +761,15 @@ def _drive(case: dict) -> dict:
 
     async def main():
         rec = genwf.CUR = genwf.Rec({"ties": case.get("ties", []), "ext": []})
-        store = m["mws"].MemoryWorkflowStore()
+        slow_release_tick = float(case.get("release_tick_write_takes", 0) or 0)
+
+        class _Store(m["mws"].MemoryWorkflowStore):
+            async def append_tick(self, run_id, tick_data):  # noqa: ANN001
+                if slow_release_tick and isinstance(tick_data, dict) and tick_data.get("type") == "idle_release":
+                    await asyncio.sleep(slow_release_tick)
+                await super().append_tick(run_id, tick_data)
+
+        store = _Store()
         io = _make_io(list(case.get("io_yields") or []))
         base = m["EmuBase"](store, obs, io)
         lock = m["MemLifecycle"](obs, float(case.get("release_takes", 0) or 0), io)
@@ -916,7 +927,7 @@ def run_case(case: dict) -> CaseResult:
     lay = _layout(case)
     total = lay["n"]  # replies sent / expected (== case["total"] without bursts)
     pos_of = lay["pos_of"]
-    L = float(case.get("release_takes", 0) or 0)
+    L = float(case.get("release_takes", 0) or 0) + float(case.get("release_tick_write_takes", 0) or 0)
     try:
         obs = _drive(case)
     except Runaway as e:
